@@ -144,6 +144,16 @@ func checkC12(c UpdCase) Outcome {
 			return out
 		}
 		out.Labels = append(out.Labels, "edit:"+c.EditKind)
+		// update --all brings the edited rule back in sync (files not named like a rule do not stop it)
+		if ua := e.run("regex", "update", "--all"); ua.Exit == 0 {
+			c5 := e.run("regex", "compare", arg)
+			if c5.Exit != 0 || !strings.Contains(c5.Stdout, "has not changed") {
+				out.Detail["compare_after_update_all"] = c5.Stdout
+				out.Violation = fmt.Sprintf("after a successful update --all compare does not report the rule as unchanged (exit %d)", c5.Exit)
+				return out
+			}
+			out.Labels = append(out.Labels, "update-all-resyncs")
+		}
 	}
 	out.NonTrivial = len(gen.Stdout) >= 3 && strings.ContainsAny(gen.Stdout, `"\ `)
 	out.Key = e.original + "\x00" + arg + "\x00" + c.Prog.Canon() + "\x00" + c.EditKind
